@@ -196,9 +196,19 @@ func cmdCheck(args []string) int {
 	var results []*FuncResult
 	var genFailures []string
 	var funcsUnder []string
-	keys := sortedKeys(eng.cs.Funcs)
-	for _, k := range keys {
-		fc := eng.cs.Funcs[k]
+	type keyed struct {
+		k  string
+		fc *FuncContract
+	}
+	var todo []keyed
+	for _, k := range sortedKeys(eng.cs.Funcs) {
+		todo = append(todo, keyed{k, eng.cs.Funcs[k]})
+	}
+	for _, k := range sortedKeys(eng.cs.Standalone) {
+		todo = append(todo, keyed{k, eng.cs.Standalone[k]})
+	}
+	for _, kf := range todo {
+		k, fc := kf.k, kf.fc
 		if fc.Trusted || fc.Opts["inline-only"] != "" {
 			continue
 		}
